@@ -5,6 +5,7 @@ import datetime
 import json
 import os
 import re
+import sys
 import time
 from fractions import Fraction
 
@@ -41,8 +42,16 @@ ASSUMPTIONS = [
     'base, timedelta rounding, astimezone() range behaviour, float repr; every theorem holds for ALL such behaviours (Libm is a '
     'parameter); the driver instance HostPy.ieee (correctly rounded binary64, zone UTC) is sampled against CPython by stream binop-host',
     '-0.0 is identified with 0.0 in the host-level model (no exception depends on the sign of zero; results are compared as rationals)',
-    'outside the model (DESIGN section 6): the recursion limit at evaluator level (an expression nested ~1000 deep with no enclosing '
-    'call; deep script recursion is swallowed by the call wrapper: call = null + one debug line), memory / time exhaustion '
+    'outside the Lean model (DESIGN section 6) but checked on the implementation by stream deep-expression: the recursion limit at '
+    'evaluator level. The host stack headroom is treated as a host configuration: what a host could PARSE with 16 frames less room '
+    '(default limit 1000, and the smallest limit that still parses) must execute without RecursionError - for the late-nesting class '
+    '(a nested operand is the LAST operand of its operator chain; chains of every operator, unary runs, groups, call / if() arguments, '
+    'all expression sites) and for wide scripts. NOT in that class, and failing on the unchanged code: a nested LEADING operand '
+    '(`!!!...f + 1 + 1 ...`, `((f + 1 + 1) + 1 + 1) ...`, 520 + 520 levels) - the parser is done with it before it descends into the '
+    'chain (need max(nesting, chain)), the evaluator needs nesting + chain frames and RecursionError escapes execute_script; also the '
+    'last 2 frames below the limit (a 996-term sum parses and escapes). Reported (candidate finding F33; probes are recorded as notes in '
+    'the evidence and become witnesses once the finding is listed). Deep SCRIPT recursion is swallowed by the call wrapper '
+    '(call = null + one debug line). Also outside: memory / time exhaustion '
     '(arrayNewSize(1e308), mathRound(x, <400-digit int>) would run for ever: such size arguments are not generated), '
     'KeyboardInterrupt/SystemExit, exceptions raised by the host-supplied logFn/urlFn themselves',
     'exec correspondence (driver op exec) is run on the exactly representable fragment only (small dyadic numbers, integral exponents)',
@@ -74,12 +83,17 @@ LEVEL_TEXT = ('Theorems (Lean 4, for ALL operands, heaps incl. cyclic ones, recu
               'True/False/absent x logFn supplied/absent (scripts: x fetchFn file table/absent/raising, globals absent; expressions: '
               'options None / without globals; corpus: also without maxStatements and with no options at all); outcome, globals, '
               'statement count and what reaches a supplied logFn must be those of the reference configuration with the same debug '
-              'mode (one failure line per swallowed failure iff debug and logFn - the wrapper model is run with hasLogFn false too).')
+              'mode (one failure line per swallowed failure iff debug and logFn - the wrapper model is run with hasLogFn false too). '
+              'Implementation-only oracle streams: deep-expression (the stack headroom of the embedding application as a host '
+              'configuration: whatever was parsed 16 frames deeper executes without RecursionError, default and tightest limit, every '
+              'expression site, late-nesting expressions of every operator class + wide scripts) and hostile-text (format-string / '
+              'template / control / Unicode text in the offending line and URL of a bad include and in every failing or logging '
+              'statement: a bad include raises BareScriptParserError with the same description, line and column as with neutral text).')
 LEVEL_NOTE = ('Trusted: Lean kernel; correspondence harness (pools, reference reading of the block and of the wrapper). Modelled not '
               'verified: CPython int/float arithmetic, libm pow, datetime/timedelta, json encoder failure modes, str(int) digit '
               'limit (all parameters or explicit cases of BareModel/HostPy.lean, sampled by stream binop-host). Library function '
               'BODIES are not modelled here (C12/C15): C05 uses only that whatever they raise passes through the wrapper. Recursion '
-              'limit at evaluator level, memory and time are outside the model.')
+              'limit at evaluator level (sampled by stream deep-expression, not modelled), memory and time are outside the model.')
 
 UTC = datetime.timezone.utc
 EPOCH = datetime.datetime(1, 1, 1)
@@ -170,8 +184,15 @@ def make_options(cfg, log, globals_=None, files=None, fetch=None, **more):
         if fetch is not None:
             options['fetchFn'] = fetch
         elif files is not None:
-            options['fetchFn'] = lambda req: files.get(req['url'])
+            options['fetchFn'] = lambda req: files_lookup(files, req['url'])
     return options
+
+
+def files_lookup(files, url):
+    """the file table of a fetchFn: exact URL, else a key '*suffix' serves every URL that ends with the suffix"""
+    if url in files:
+        return files[url]
+    return next((v for k, v in files.items() if k.startswith('*') and isinstance(url, str) and url.endswith(k[1:])), None)
 
 
 def run_script(mods, text, globals_=None, debug=True, max_statements=20000, files=None, cfg=None):
@@ -593,7 +614,7 @@ def random_number(rng):
 
 ARG_POOL = [
     ['none'], ['bool', True], Fl(0.0), Fl(1.0), Fl(-1.0), Fl(1.5), Fl(3.0), I(2), I(10 ** 400), I(16 ** 4000), ['float', 'inf'], ['float', 'nan'],
-    Fl(1e308), S(''), S('abc'), S('('), S('2024-01-01'), S('[1,2'), S('a,b\n1,2'), S('x + '), S('len(5)'),
+    Fl(1e308), S(''), S('abc'), S('('), S('2024-01-01'), S('[1,2'), S('a,b\n1,2'), S('x + '), S('len(5)'), S('{0} %s {x'), S('}%(a)d{{'),
     ['list', []], ['list', [Fl(1.0), Fl(2.0), Fl(3.0)]], ['list', [S('b'), S('a')]], ['list', [['list', [Fl(1.0)]], ['list', [Fl(2.0)]]]],
     ['cyclic_list'], ['list', [['float', 'inf']]], ['list', [['dict', [['a', Fl(1.0)]]], ['dict', [['a', S('x')]]]]],
     ['dict', []], ['dict', [['a', Fl(1.0)]]], ['dict', [['a', ['dict', [['b', Fl(2.0)]]]]]], ['cyclic_dict'], ['dict', [['url', S('ok')]]],
@@ -1292,12 +1313,18 @@ def config_failures(mods, text, cfg, ends_rt, files, ref=None):
     return bad
 
 
-def text_case(ctx, mods, st, name, text, ends_rt, tags, extra=()):
+def text_case(ctx, mods, st, name, text, ends_rt, tags, extra=(), files=None, expect=None):
+    """files: the fetchFn file table (default FILES); expect: the outcome kinds allowed in the reference configuration when the
+    script ends in a documented exception (default: rt or parser)"""
     res = {}
+    own_files = files is not None
+    files = files if own_files else FILES
     for debug in (True, False):
-        res[debug] = run_script(mods, text, None, debug, 20000, FILES)
+        res[debug] = run_script(mods, text, None, debug, 20000, files)
     (out_d, log_d, g_d), (out_n, log_n, g_n) = res[True], res[False]
     case = {'kind': 'text', 'text': text}
+    if own_files:
+        case['files'] = files
     lib = mods['library'].SCRIPT_FUNCTIONS
     fl = fail_lines(log_d)
     st.case(text, nontrivial=bool(fl), tags=tags + [out_d[0]] + (['swallowed'] if fl else []) + [cfg_tag(c) for c in extra])
@@ -1307,13 +1334,15 @@ def text_case(ctx, mods, st, name, text, ends_rt, tags, extra=()):
             return
     # the other host configurations (debug True/False/absent x logFn supplied/absent x fetchFn files/absent/raising)
     for cfg in extra:
-        for oracle, want, got in config_failures(mods, text, cfg, ends_rt, FILES, ref=res[cfg_debug(cfg)]):
-            ctx.witness(oracle, {'kind': 'text-config', 'text': text, 'config': cfg, 'ends_rt': ends_rt}, want, got)
+        for oracle, want, got in config_failures(mods, text, cfg, ends_rt, files, ref=res[cfg_debug(cfg)]):
+            ctx.witness(oracle, dict({'kind': 'text-config', 'text': text, 'config': cfg, 'ends_rt': ends_rt}, **({'files': files} if own_files else {})),
+                        want, got)
     if not ends_rt:
         if out_d != ('ok', 'done') or not log_d or log_d[-1] != 'END':
             ctx.witness('execution-continues', dict(case, debug=True), ['ok', 'done', 'END'], [list(out_d[:1]) + [str(out_d[1])[:200]], log_d[-3:]])
-    elif out_d[0] not in ('rt', 'parser'):
-        ctx.witness('documented-exception-expected', dict(case, debug=True), 'rt or parser', list(out_d[:1]))
+    elif out_d[0] not in (expect or ('rt', 'parser')):
+        ctx.witness('documented-exception-expected', dict(case, debug=True, expect=list(expect or ('rt', 'parser'))), ' or '.join(expect or ('rt', 'parser')),
+                    list(out_d[:1]) + [str(out_d[1])[:200]])
     # metamorphic: debug only adds failure lines (and include-lint lines, none here)
     rest = [ln for ln in log_d if not FAIL_RE.match(ln) and not ln.startswith('BareScript: ')]
     if rest != [ln for ln in log_n if not ln.startswith('BareScript: ')] or fail_lines(log_n):
@@ -1327,6 +1356,454 @@ def text_case(ctx, mods, st, name, text, ends_rt, tags, extra=()):
     for ln in fl:
         if not FAIL_RE.match(ln).group(1):
             ctx.witness('failure-line-names-function', case, 'a function name', ln)
+
+
+# ---------------------------------------------------------------------------------------------------------------------
+# stream deep-expression: the STACK HEADROOM of the embedding application is a host configuration too.
+#
+# "Executing any PARSED script ... no host exception": an expression that parse_script / parse_expression accepted has to
+# evaluate without RecursionError escaping.  The simulated host sits at interpreter stack depth HOST_DEPTH; it PARSES the
+# script STACK_SLACK frames deeper (so a host with that much less room could still parse it) and then EXECUTES the model
+# under the same recursion limit - the interpreter default (`default`) or the smallest limit under which the script still
+# parses (`tight`: any growth of the evaluator's stack need beyond the parser's shows on expressions of ANY size).
+#
+# The expressions follow the "late nesting" grammar: a nested operand is always the LAST operand of an operator chain.
+# For these the unchanged evaluator needs no more frames than the recursive-descent parser (chain of k operators: k
+# parser frames, tree depth k; unary / group / call nesting: >= 1 parser frame per tree level).  A nested operand in a
+# LEADING position is different - the parser is done with it before it descends into the chain, the evaluator is not -
+# and there the unchanged code does let RecursionError escape: that class is kept apart (LEAD_NEST_PROBES).
+# ---------------------------------------------------------------------------------------------------------------------
+
+HOST_DEPTH = 100                # stack depth of the simulated embedding application when it calls parse_* / execute_script
+STACK_SLACK = 16                # the host parses this many frames deeper than it executes
+DEFAULT_LIMIT = 1000            # sys.getrecursionlimit() of a stock interpreter
+LEAD_NEST_FINDING = 'F33'       # id under which the coordinator may list the leading-operand defect in known_findings.json
+
+
+def stack_depth():
+    frame, n = sys._getframe(1), 0          # pylint: disable=protected-access
+    while frame is not None:
+        n += 1
+        frame = frame.f_back
+    return n
+
+
+def call_at(depth, fn):
+    """call fn() from a frame at absolute interpreter stack depth `depth` (wherever the harness itself happens to be:
+    a stream, a replay, a search - the witness behaves the same)"""
+    def pad():
+        if stack_depth() >= depth:
+            return fn()
+        return pad()
+    return pad()
+
+
+def with_limit(limit, fn):
+    old = sys.getrecursionlimit()
+    sys.setrecursionlimit(limit)
+    try:
+        return fn()
+    finally:
+        sys.setrecursionlimit(old)
+
+
+DEEP_GLOBALS = {'f': True, 'z': False, 'n': 1.5, 's': 'ab'}
+DEEP_SITES = {
+    'return': 'return {E}\n',
+    'assign': 'vv = {E}\nreturn vv\n',
+    'exprstmt': '({E})\nreturn 1\n',                           # (a bare `n == 1` would be read as the assignment n = ...)
+    'if': 'if {E}:\n    rr = 1\nelse:\n    rr = 2\nendif\nreturn rr\n',
+    'elif': 'if z:\n    rr = 1\nelif {E}:\n    rr = 2\nendif\nreturn rr\n',
+    'while': 'while {E}:\n    break\nendwhile\nreturn 1\n',
+    'for': 'for vv in {E}:\n    rr = vv\nendfor\nreturn 1\n',
+    'jumpif': 'jumpif ({E}) lab\nrr = 1\nlab:\nreturn rr\n',
+    'callarg': 'rr = systemType({E})\nreturn rr\n',
+    'fnbody': 'function ff(aa):\n    bb = {E}\n    return bb\nendfunction\nreturn ff(1)\n',
+    'include': "include 'deep.bare'\nreturn incr\n",            # the expression is in the included file
+    'expr': None,                                               # parse_expression / evaluate_expression
+}
+CHAIN_OPS = [['+'], ['-'], ['*'], ['/'], ['%'], ['**'], ['&&'], ['||'], ['=='], ['!='], ['<'], ['<='], ['>'], ['>='],
+             ['+', '-'], ['*', '/', '%'], ['<', '>=', '=='], ['&&', '||'], ['**', '*', '+', '<', '==', '&&', '||']]
+CHAIN_ATOMS = {'&&': ['f', 'f', '1', "'a'", 'true'], '||': ['z', 'z', '0', "''", 'null', 'false']}
+PLAIN_ATOMS = ['1', '2', '0.5', 'n', 's', "'ab'", 'f', 'z', 'null', '10', '1e+3', 'undefinedName']
+WRAPS = [['mathAbs(', ')'], ['systemType(', ')'], ['arrayNew(1, ', ')'], ['arrayNew(', ', 2)'], ['if(f, ', ', 1)'], ['if(z, 1, ', ')'],
+         ['if(', ', 1, 2)'], ['stringNew(', ')'], ['systemBoolean(', ')'], ['mathMax(1, ', ', 3)'], ['objectNew("k", ', ')']]
+
+
+def expr_from_segs(segs):
+    """the text of a late-nesting expression from its recipe (inside out): ['atom', text] | ['unary', ops, m] |
+    ['chain', ops, atom, m] (m atoms in front, the previous text is the LAST operand) | ['group'] | ['wrap', before, after]"""
+    cur, chain = '1', False
+    for seg in segs:
+        kind = seg[0]
+        if kind == 'atom':
+            cur, chain = seg[1], False
+        elif kind == 'unary':
+            if chain:
+                cur = '(' + cur + ')'
+            ops = seg[1]
+            cur, chain = ''.join(ops[i % len(ops)] for i in range(seg[2])) + cur, False
+        elif kind == 'chain':
+            ops = seg[1]
+            cur, chain = ''.join(f'{seg[2]} {ops[i % len(ops)]} ' for i in range(seg[3])) + cur, True
+        elif kind == 'group':
+            cur, chain = '(' + cur + ')', False
+        else:
+            cur, chain = seg[1] + cur + seg[2], False
+    return cur
+
+
+def lead_nest_expr(kind, m, k):
+    """the OTHER class: a nested FIRST operand under a chain of k operators (parser need max(m, k), evaluator need m + k)"""
+    if kind == 'unary':
+        return '!' * m + 'f' + ' + 1' * k
+    if kind == 'group':
+        return '(' * m + 'f' + ')' * m + ' + 1' * k
+    cur = 'f'
+    for _ in range(m):                          # ((f + 1 + 1) + 1 + 1) ...
+        cur = '(' + cur + ' + 1' * k + ')'
+    return cur
+
+
+def wide_script(kind, n):
+    """scripts whose SIZE grows but whose nesting does not: the parser needs O(1) frames, so must the execution"""
+    if kind == 'args':
+        return 'rr = arrayNew(' + ', '.join(['1', "'a'", 'f', 'n'][i % 4] for i in range(n)) + ')\nreturn arrayLength(rr)\n'
+    if kind == 'statements':
+        return 'vv = 0\n' + 'vv = vv + 1\n' * n + 'return vv\n'
+    if kind == 'loop':
+        return f'ii = 0\nwhile ii < {n}:\n    ii = ii + 1\nendwhile\nfor vv in arrayNewSize({n}):\n    ii = ii + 1\nendfor\nreturn ii\n'
+    if kind == 'labels':
+        return ''.join(f'jump lab{i}\nvv = 1\nlab{i}:\n' for i in range(n)) + 'return vv\n'
+    if kind == 'functions':
+        return ''.join(f'function fn{i}(aa):\n    return aa + 1\nendfunction\nvv = fn{i}(vv)\n' for i in range(n)) + 'return vv\n'
+    if kind == 'blocks':
+        return 'vv = 0\n' + ''.join('if f:\n    vv = vv + 1\nelif z:\n    vv = 0\nelse:\n    vv = 1\nendif\n' for i in range(n)) + 'return vv\n'
+    if kind == 'string':
+        return "ss = '" + 'ab{%s' * n + "'\nreturn stringLength(ss)\n"
+    raise ValueError(kind)
+
+
+WIDE_KINDS = ['args', 'statements', 'loop', 'labels', 'functions', 'blocks', 'string']
+
+
+def deep_text(spec):
+    """recipe -> (script or expression text, files)"""
+    if 'wide' in spec:
+        return wide_script(*spec['wide']), None
+    expr = lead_nest_expr(*spec['lead']) if 'lead' in spec else expr_from_segs(spec['segs'])
+    site = spec['site']
+    if site == 'expr':
+        return expr, None
+    if site == 'include':
+        return DEEP_SITES[site], {'deep.bare': 'incr = ' + expr + '\n'}
+    return DEEP_SITES[site].replace('{E}', expr), None
+
+
+def deep_run(mods, spec):
+    """-> None if the simulated host cannot parse the text itself (RecursionError in the parser: not a PARSED script), else
+    (guarded outcome of the execution, recursion limit used)"""
+    parser, runtime = mods['parser'], mods['runtime']
+    text, files = deep_text(spec)
+    is_expr = spec.get('site') == 'expr'
+
+    def host_parse():
+        model = parser.parse_expression(text) if is_expr else parser.parse_script(text)
+        for included in (files or {}).values():
+            parser.parse_script(included)
+        return model
+
+    def parses(limit):
+        try:
+            return with_limit(limit, lambda: call_at(HOST_DEPTH + STACK_SLACK, host_parse))
+        except RecursionError:
+            return None
+
+    limit = DEFAULT_LIMIT
+    model = parses(limit)
+    if model is None:
+        return None
+    if spec.get('limit') == 'tight':                    # the smallest limit under which this host still parses the text
+        lo, hi = HOST_DEPTH + STACK_SLACK + 2, DEFAULT_LIMIT
+        while lo < hi:
+            mid = (lo + hi) // 2
+            if parses(mid) is not None:
+                hi = mid
+            else:
+                lo = mid + 1
+        limit = lo
+    cfg = spec.get('config') or REF_ON
+    log = []
+    if is_expr:
+        options = None if cfg.get('none') else make_options(cfg, log, None if cfg.get('noGlobals') else dict(DEEP_GLOBALS))
+        run = lambda: runtime.evaluate_expression(model, options, None, bool(spec.get('builtins', True)))   # noqa: E731
+    elif cfg.get('none'):
+        run = lambda: runtime.execute_script(model)                                                         # noqa: E731
+    else:
+        options = make_options(cfg, log, None if cfg.get('noGlobals') else dict(DEEP_GLOBALS), files=files, maxStatements=50000)
+        run = lambda: runtime.execute_script(model, options)                                                # noqa: E731
+    return with_limit(limit, lambda: call_at(HOST_DEPTH, lambda: guarded(mods, run))), limit
+
+
+def random_segs(rng, frames):
+    """a late-nesting recipe whose parse needs about `frames` frames"""
+    segs = [['atom', rng.choice(PLAIN_ATOMS)]]
+    used = 1
+    while used < frames:
+        room = frames - used
+        kind = rng.choice(['chain', 'chain', 'chain', 'unary', 'unary', 'group', 'wrap'])
+        m = min(room, rng.choice([1, 2, 3, 7, 25, 90, 300, 1000]))
+        if kind == 'chain':
+            ops = rng.choice(CHAIN_OPS)
+            atoms = CHAIN_ATOMS.get(ops[0]) if len(ops) == 1 else None
+            segs.append(['chain', ops, rng.choice(atoms or PLAIN_ATOMS), m])
+            used += m
+        elif kind == 'unary':
+            segs.append(['unary', rng.choice(['!', '-', '!-', '- ', '! ']), m])
+            used += m
+        elif kind == 'group':
+            segs.append(['group'])
+            used += 2
+        else:
+            segs.append(['wrap'] + rng.choice(WRAPS))
+            used += 2
+    return segs
+
+
+DEEP_CONFIGS = [REF_ON, REF_OFF] + EXTRA_CONFIGS + [{'none': True}, {'debug': True, 'logFn': True, 'noGlobals': True}]
+
+
+def lead_nest_known():
+    return any(f.get('id') == LEAD_NEST_FINDING and f.get('status') == 'known' for f in fw.load_findings(ID))
+
+
+LEAD_NEST_PROBES = [['unary', 520, 520], ['group', 400, 800], ['nested', 330, 2]]
+FINDING_MATCHERS = {LEAD_NEST_FINDING: lambda w: w.get('input', {}).get('kind') == 'deep' and 'lead' in w['input'].get('spec', {})}
+
+
+def stream_deep(ctx, mods, n, name='deep-expression'):
+    st = ctx.stream(name, 'host stack headroom as a host configuration: late-nesting expressions (operator chains of every operator '
+                          'class and precedence mix, unary runs, groups, call / if() arguments, in any combination; the nested operand '
+                          f'is the last operand of its chain) whose parse needs 5..{DEFAULT_LIMIT - HOST_DEPTH - 60} interpreter frames, at every '
+                          'expression site (return, assignment, expression statement, if / elif / while / for / jumpif condition, call '
+                          'argument, function body, included file, evaluate_expression with and without builtins) + wide scripts (thousands '
+                          'of arguments / statements / iterations / labels / functions / blocks, O(1) nesting); the host parses the text '
+                          f'{STACK_SLACK} frames deeper than it executes the model, under the default recursion limit and under the smallest '
+                          'limit that still lets it parse (tight), host configurations in rotation; oracle: whatever was PARSED executes '
+                          'to a value or a documented exception - no RecursionError escapes; non-trivial = parsed and executed')
+    rng = ctx.rng(name)
+    specs = []
+    top = DEFAULT_LIMIT - HOST_DEPTH - STACK_SLACK - 40
+    sites = sorted(DEEP_SITES)
+    for ix in range(n):
+        tight = ix % 3 == 2
+        frames = rng.choice([5, 20, 60, 150]) if tight and rng.random() < 0.5 else rng.randint(200, top)
+        site = sites[ix % len(sites)] if rng.random() < 0.7 else rng.choice(['return', 'assign', 'expr'])
+        if tight and site == 'include':                 # the include machinery itself (fetch, lint) needs its constant room
+            site = 'jumpif'
+        spec = {'site': site, 'segs': random_segs(rng, frames), 'limit': 'tight' if tight else 'default',
+                'config': DEEP_CONFIGS[(ix // 3) % len(DEEP_CONFIGS)]}
+        if site == 'expr':
+            spec['builtins'] = rng.random() < 0.5
+        specs.append(spec)
+    # homogeneous chains and runs at the sizes generated code reaches (sums, concatenations, conjunctions)
+    for ops in CHAIN_OPS[:14]:
+        atom = rng.choice(CHAIN_ATOMS.get(ops[0], ['1', "'ab'", 'n']))
+        specs.append({'site': rng.choice(['return', 'assign', 'if', 'expr']), 'segs': [['atom', atom], ['chain', ops, atom, rng.randint(450, top)]],
+                      'limit': 'default', 'config': REF_ON})
+    for ops in ['!', '-', '!-']:
+        specs.append({'site': 'return', 'segs': [['atom', 'f'], ['unary', ops, rng.randint(450, top)]], 'limit': 'default', 'config': REF_OFF})
+    for kind in WIDE_KINDS:
+        for limit in ('default', 'tight'):
+            sizes = [150, 500] if kind in ('labels', 'blocks') else [300, 1200, 3000]      # the label lookup of a jump is linear
+            specs.append({'wide': [kind, rng.choice(sizes)], 'limit': limit, 'config': rng.choice(DEEP_CONFIGS[:6])})
+    specs = specs[n:] + specs[:n]                       # the plain chains / runs / wide scripts first: the most readable witnesses
+    for spec in specs:
+        deep_case(ctx, mods, st, spec)
+    # the leading-operand class: the UNCHANGED evaluator needs more frames than the parser here (reported to the coordinator);
+    # a witness only once the finding is listed as known, until then the probe results are notes in the evidence
+    known = lead_nest_known()
+    for probe in LEAD_NEST_PROBES:
+        spec = {'site': 'return', 'lead': probe, 'limit': 'default', 'config': REF_ON}
+        res = deep_run(mods, spec)
+        if res is not None and res[0][0] == 'escape':
+            if known:
+                ctx.witness('parsed-script-escape', {'kind': 'deep', 'spec': spec}, 'a value or a documented exception', list(res[0]))
+            else:
+                ctx.notes.append(f'deep-expression: leading-operand nesting {probe} parses and then escapes {res[0][1]} on execution '
+                                 f'(evaluator stack need = nesting + chain, parser = max of both): candidate finding {LEAD_NEST_FINDING}, '
+                                 'not counted as a violation until listed')
+
+
+def deep_case(ctx, mods, st, spec):
+    res = deep_run(mods, spec)
+    shape = 'wide-' + spec['wide'][0] if 'wide' in spec else 'site-' + spec['site']
+    cfg = spec.get('config') or REF_ON
+    if res is None:
+        st.case(spec, nontrivial=False, tags=['parser-refused', shape])
+        return
+    out, limit = res
+    room = limit - HOST_DEPTH - STACK_SLACK
+    st.case(spec, nontrivial=True, tags=[shape, 'limit-' + spec['limit'], 'out-' + out[0], cfg_tag(cfg),
+                                         'parse-room<50' if room < 50 else 'parse-room<400' if room < 400 else 'parse-room>=400'])
+    if out[0] == 'escape':
+        ctx.witness('parsed-script-escape', {'kind': 'deep', 'spec': spec, 'limit': limit},
+                    'a value or BareScriptRuntimeError/BareScriptParserError (the host parsed this text with less stack than it gave the execution)',
+                    list(out))
+
+
+# ---------------------------------------------------------------------------------------------------------------------
+# stream hostile-text: every message the runtime builds from script-controlled text (the offending line and the URL of a
+# bad include, the line of a run-time parse error, 'failed with error' log lines, include / fetch diagnostics) is built
+# for ARBITRARY text: format-string metacharacters of every formatting mini-language ({} % $ \g), JSON / template /
+# regex text, control characters and the Unicode line separators, non-BMP and combining characters, lines longer than
+# the 120-character window of the parser error (every elision branch, a brace pair cut in half)
+# ---------------------------------------------------------------------------------------------------------------------
+
+HOSTILE_ATOMS = [
+    '{', '}', '{}', '{0}', '{1}', '{a}', '{"a": 1}', '{caret}', '{column}', '{error}', '{line}', '{prefix}', '{line_number}', '{0!r}', '{0:>{1}}',
+    '{:>', '{!', '}{', '{{', '}}', '{{}}', 'Hello {name', '{name}}', '{0[0]}', '{a.b}', '%', '%s', '%d', '%r', '%(a)s', '%(line)s', '100%', '%%',
+    '% d', '%*d', '%c', '${x}', '$1', '$&', '$$', '#{x}', '<b>', '&amp;', '[', ']', '(', ')', '^', '*', '+', '?', '|', '.', '\t', '\x00', '\x0b', '\x0c',
+    '\x1c', '\x1d', '\x1e', '\x1f', '\x7f', '\x85', '\xa0', '\u2028', '\u2029', '\u00e9', 'a\u0301', '\u00df', '\u0130', '\u202e', '\ufeff', '\ud7ff',
+    '\U0001f600', '\U000e0001', '\uff5b\uff5d', ' ', '  ', '#', '...', ':', ';', ',', '/', '//', '../', '?a=1&b={c}', 'file:///', 'http://h/{p}/', '~',
+    'null', 'endif', 'include', '1e999', '-', '0x{:x}',
+]
+HOSTILE_BAN = {"'": '`', '"': '`', '\\': '/', '\n': ' ', '\r': ' '}
+
+
+def hostile_payload(rng):
+    r = rng.random()
+    parts = [rng.choice(HOSTILE_ATOMS) for _ in range(rng.choice([1, 1, 1, 2, 3]))]
+    if r < 0.3:                                                 # long lines: the three elision branches of the parser error
+        fill = rng.choice(['a', ' ', '{', '}', '%', 'ab {x} '])
+        parts.insert(rng.randint(0, len(parts)), fill * rng.choice([40, 70, 125, 260]))
+    text = ''.join(parts)
+    return ''.join(HOSTILE_BAN.get(ch, ch) for ch in text)
+
+
+# included files with a syntax error: (text with @@ = the payload, is the payload inside a string literal of the error line)
+BROKEN_INCLUDES = [
+    ("libValue = jsonParse('@@') +\n", True), ("libValue = objectGet(jsonParse('@@'), 'a',\n", True),
+    ("libValue = stringReplace('Hello @@', '@@', 'x') 1\n", True), ("libValue = 1 + * '@@'\n", True), ("libValue = ('@@'\n", True),
+    ('libValue = "@@" "@@"\n', True), ("return '@@' )\n", True), ("'@@' 5\n", True), ("aa = 1\nbb = 2\n\n# c\nlibValue = '@@' +\n", True),
+    ("if '@@' == 1:\n    xx = 1\n", True), ('while stringLength("@@"):\n    xx = 1\n', True), ("for vv in '@@'\n    xx = 1\nendfor\n", True),
+    ("function ff(aa):\n    return '@@'\n", True), ("xx = 1\nendif '@@'\n", True), ("if true:\n    xx = '@@'\nendwhile\n", True),
+    ("xx = '@@' + \\\n    (1 +\n", True), ("jumpif ('@@' lab\n", True), ("function ff(aa, '@@'):\nendfunction\n", True),
+    ("include '@@\n", False), ("yy = [@@ +\n", False), ("yy = [a @@] +\n", False), ("@@\n= 1 +\n", False), ("break '@@'\n", True),
+    ("async function ff('@@'):\n", True), ("libValue = mathAbs(1,, '@@')\n", True), ("    libValue = '@@' '\n", True),
+]
+# main scripts that include 'lib.bare' (## = the payload inside the URL)
+INCLUDE_MAINS = [
+    ("include 'lib.bare'\nreturn libValue\n", {}), ("include <lib.bare>\nreturn libValue\n", {}),
+    ("function ff():\n    include 'lib.bare'\nendfunction\nrr = ff()\nreturn 'swallowed'\n", {}),
+    ("include 'mid.bare'\nreturn 1\n", {'mid.bare': "midv = 1\ninclude 'lib.bare'\n"}),
+    ("include 'ok.bare'\ninclude 'lib.bare'\nreturn 1\n", {'ok.bare': 'okv = 1\n'}),
+    ("include 'dir/##lib.bare'\nreturn 1\n", {}), ("include <##lib.bare>\nreturn 1\n", {}), ("include '##'\nreturn 1\n", {}),
+    ("include 'sub/mid.bare'\nreturn 1\n", {'sub/mid.bare': "include '##lib.bare'\n"}),
+]
+# statements of a main script that carry the payload and do NOT end the run (@@ single-quoted, the run reaches END)
+HOSTILE_LINES = [
+    "r1 = arrayGet('@@', 1)", "r1 = numberParseInt('@@', 99)", "r1 = datetimeISOParse('@@')", "r1 = regexNew('@@')", "r1 = jsonParse('@@')",
+    "r1 = schemaParse('@@')", "r1 = schemaParse('struct @@')", "r1 = schemaParse('typedef @@ T', '@@')", "r1 = objectGet(objectNew(), '@@')",
+    "r1 = systemGlobalGet('@@')", "r1 = systemGlobalSet('@@', 1)", "r1 = systemFetch('@@')", "r1 = systemFetch(arrayNew('@@', 5))",
+    "r1 = systemFetch(objectNew('url', '@@', 'body', '@@'))", "systemLog('@@')", 'systemLog("@@")', "r1 = stringSplit('@@', '')",
+    "r1 = mathAbs('@@')", "r1 = five('@@')", "r1 = dataFilter(arrayNew(objectNew('a', 1)), \"a == '@@'\")",
+    "r1 = dataCalculatedField(arrayNew(objectNew('a', 1)), 'b', \"'@@' + a\")", "r1 = dataCalculatedField(arrayNew(objectNew('a', 1)), '@@', 'nope(1)', 5)",
+    "r1 = dataParseCSV('@@')", "r1 = urlEncode('@@')", "r1 = urlEncodeComponent(objectNew('@@', 1))", "r1 = stringNew(objectNew('@@', '@@'))",
+    "r1 = numberToFixed('@@')", "r1 = datetimeNew('@@')", "r1 = schemaValidate(schemaParse('typedef int T'), 'T', '@@')",
+    "r1 = schemaValidate(schemaParse('typedef int T'), '@@', 1)", "r1 = schemaValidate(schemaParse('struct S', '  int a'), 'S', objectNew('@@', 1))",
+    "r1 = objectNew('@@')", "r1 = objectNew('@@', 1, '@@')", "r1 = regexMatch(regexNew('a'), 5, '@@')", "r1 = regexReplace(regexNew('a'), 'a', '@@')",
+    "r1 = stringReplace('a', 'a', '@@')", "r1 = arrayJoin(arrayNew(1), objectNew('@@', 1))", "r1 = arraySort('@@')", "r1 = dataSort(arrayNew(objectNew('a', 1)), '@@')",
+    "r1 = dataAggregate(arrayNew(objectNew('a', 1)), objectNew('@@', 1))",
+    "r1 = dataTop(arrayNew(objectNew('a', 1)), '@@')", "r1 = objectAssign('@@', '@@')", "r1 = stringRepeat('@@', '@@')", "r1 = systemPartial('@@', 1)",
+    "r1 = datetimeYear('@@')", "# @@", "r1 = jsonStringify('@@', '@@')",
+    "function hf(aa):\n    return arrayGet(aa, '@@')\nendfunction\nr1 = hf('@@')", "r1 = objectGet(null, '@@', '@@') + arrayGet('@@')",
+    "include 'ok.bare'\nr1 = arrayGet(okv, '@@')", "r1 = mathRound('@@', '@@')", "r1 = numberParseFloat('@@') + numberParseInt('@@')",
+]
+# ... and statements that end the run with a documented exception whose text carries the payload
+HOSTILE_RT_LINES = [
+    "r1 = dataFilter(arrayNew(objectNew('a', 1)), \"a + '@@' +\")", "r1 = dataFilter(arrayNew(objectNew('a', 1)), \"nosuch('@@') '@@'\")",
+    "r1 = dataCalculatedField(arrayNew(objectNew('a', 1)), 'b', \"('@@'\")", "include '@@missing.bare'", "include <@@missing.bare>",
+    "function hf():\n    include 'x/@@.bare'\nendfunction\nr1 = hf()", "r1 = dataJoin(arrayNew(objectNew('a', 1)), arrayNew(objectNew('a', 1)), \"'@@' +\")",
+    "r1 = dataAggregate(arrayNew(objectNew('a', 1)), objectNew('measures', arrayNew(objectNew('field', 'a', 'function', 'sum'))))\nr2 = nosuch('@@')",
+]
+
+
+def hostile_script(spec):
+    """recipe -> (main script text, files, expected kinds of the reference outcome or None = reaches END)"""
+    pay = spec['payload'] if not spec.get('twin') else 'x' * len(spec['payload'])
+    url_pay = ''.join(ch for ch in pay if ch not in '>')
+    if 'broken' in spec:
+        main, more = INCLUDE_MAINS[spec['main']]
+        lib = BROKEN_INCLUDES[spec['broken']][0].replace('@@', pay)
+        main = main.replace('##', url_pay)
+        files = {k.replace('##', url_pay): v.replace('##', url_pay) for k, v in more.items()}
+        files['*lib.bare'] = lib                        # whatever URL the payload turns the include into
+        if main.startswith("include '" + url_pay + "'"):
+            files[url_pay] = lib
+        return main, files, ['parser']
+    lines = [HOSTILE_LINES[i].replace('@@', pay) for i in spec['lines']]
+    expect = None
+    if spec.get('rt') is not None:
+        lines.append(HOSTILE_RT_LINES[spec['rt']].replace('@@', pay))
+        expect = ['rt', 'parser']
+    return 'five = 5\n' + '\n'.join(lines) + "\nsystemLog('END')\nreturn 'done'\n", {'ok.bare': 'okv = arrayNew(1)\n'}, expect
+
+
+def parser_error_attrs(mods, text, files):
+    """the documented exception of a bad include, by its attributes"""
+    options = make_options(REF_ON, [], {}, files=files, maxStatements=20000)
+    try:
+        mods['runtime'].execute_script(mods['parser'].parse_script(text), options)
+    except mods['parser'].BareScriptParserError as exc:
+        return ['parser', exc.error, exc.line_number, exc.column_number, len(exc.line)]
+    except mods['runtime'].BareScriptRuntimeError as exc:
+        return ['rt', str(exc)[:80]]
+    except (KeyboardInterrupt, SystemExit):
+        raise
+    except BaseException as exc:  # pylint: disable=broad-except
+        return ['escape', type(exc).__name__, str(exc)[:120]]
+    return ['ok']
+
+
+def twin_failure(mods, spec):
+    """a bad include reports the SAME error (description, line number, column, line length) whatever the characters inside the
+    string literal on the offending line are: the payload against the same number of 'x' -> (expected, actual) or None"""
+    text, files, _ = hostile_script(spec)
+    twin_text, twin_files, _ = hostile_script(dict(spec, twin=True))
+    got, want = parser_error_attrs(mods, text, files), parser_error_attrs(mods, twin_text, twin_files)
+    return None if got == want else (want, got)
+
+
+def stream_hostile(ctx, mods, n, name='hostile-text'):
+    st = ctx.stream(name, f'script-controlled text in every message the runtime builds: {len(HOSTILE_ATOMS)} hostile atoms (format-string '
+                          'metacharacters of the {} / % / $ mini-languages, JSON / template / regex / URL text, control characters, '
+                          'Unicode line separators, combining / non-BMP / full-width characters, keywords), 1-3 of them, 30% padded beyond '
+                          f'the 120-character error window, inside (a) the offending line of {len(BROKEN_INCLUDES)} kinds of broken included '
+                          f'file x {len(INCLUDE_MAINS)} ways of including it (plain, system, inside a function, nested, second of two, payload '
+                          f'in the URL), (b) 1-3 of {len(HOSTILE_LINES)} failing / logging statements, sometimes followed by one of '
+                          f'{len(HOSTILE_RT_LINES)} statements whose documented exception carries the payload; run with debug on and off and '
+                          'under one (thorough: four) other host configuration; oracles: only documented exceptions escape, a bad include '
+                          'raises BareScriptParserError (same description / line number / column as with the payload replaced by x..x), '
+                          'END is reached otherwise, debug only adds failure lines; non-trivial = a documented exception or a swallowed failure')
+    rng = ctx.rng(name)
+    off = rng.randrange(len(EXTRA_CONFIGS))
+    for ix in range(n):
+        payload = hostile_payload(rng)
+        if ix % 2 == 0:
+            bix = (ix // 2) % len(BROKEN_INCLUDES)
+            spec = {'payload': payload, 'broken': bix, 'main': rng.randrange(len(INCLUDE_MAINS))}
+        else:
+            spec = {'payload': payload, 'lines': [((ix // 2) % len(HOSTILE_LINES))] + [rng.randrange(len(HOSTILE_LINES)) for _ in range(rng.choice([0, 0, 1, 2]))]}
+            if rng.random() < 0.2:
+                spec['rt'] = rng.randrange(len(HOSTILE_RT_LINES))
+        text, files, expect = hostile_script(spec)
+        text_case(ctx, mods, st, name, text, expect is not None, ['bad-include' if 'broken' in spec else 'statements'],
+                  extra_configs(ctx, ix + off, rng, fetch=True), files=files, expect=expect)
+        if 'broken' in spec and BROKEN_INCLUDES[spec['broken']][1]:
+            bad = twin_failure(mods, spec)
+            if bad is not None:
+                ctx.witness('error-depends-on-literal-text', {'kind': 'hostile-twin', 'spec': spec, 'text': text, 'files': files}, bad[0], bad[1])
 
 
 # ---------------------------------------------------------------------------------------------------------------------
@@ -1377,6 +1854,8 @@ def streams(ctx):
     stream_exec(ctx, mods, ctx.scale(250, 4000))
     stream_expr(ctx, mods, ctx.scale(300, 6000))
     stream_text(ctx, mods, ctx.scale(len(ADV_LINES) + 150, len(ADV_LINES) + 6000))
+    stream_deep(ctx, mods, ctx.scale(150, 3000))
+    stream_hostile(ctx, mods, ctx.scale(1200, 20000))
 
 
 def disagreement_known(d, known):
@@ -1387,7 +1866,10 @@ def search(ctx):
     """something no longer checks and no witness yet: larger budgets of the implementation-only oracles"""
     mods = fw.impl()
     try:
-        stream_text(ctx, mods, len(ADV_LINES) + 3000, name='search-text')
+        stream_deep(ctx, mods, 1500, name='search-deep')
+        stream_hostile(ctx, mods, 4000, name='search-hostile')
+        if not ctx.witnesses:
+            stream_text(ctx, mods, len(ADV_LINES) + 3000, name='search-text')
         if ctx.driver is not None and not ctx.witnesses:
             stream_binop_host(ctx, mods, binop_triples(ctx, 20000, exhaustive=True), name='search-binop')
     except fw.DriverCrash:
@@ -1439,6 +1921,8 @@ def replay(witness):
         if oracle in ('execution-continues',):
             r = res[modes[0]]
             return r[0] != ('ok', 'done') or r[1][-1:] != ['END']
+        if oracle == 'documented-exception-expected':
+            return res[modes[0]][0][0] not in inp.get('expect', ['rt', 'parser'])
         if oracle == 'corpus-expectation':
             r = res[modes[0]][0]
             want = witness['expected']
@@ -1449,6 +1933,12 @@ def replay(witness):
             return [x for x in ld if not x.startswith('BareScript: ')] != [x for x in ln_ if not x.startswith('BareScript: ')] \
                 or bool(fail_lines(ln_)) or (od[0], str(od[1])) != (on[0], str(on[1]))
         return False
+    if kind == 'deep':
+        res = deep_run(mods, inp['spec'])
+        return res is not None and res[0][0] == 'escape'
+    if kind == 'hostile-twin':
+        text, files, _ = hostile_script(inp['spec'])
+        return parser_error_attrs(mods, text, files)[0] == 'escape' or twin_failure(mods, inp['spec']) is not None
     if kind in ('text-config', 'corpus-config'):
         return bool(config_failures(mods, inp['text'], inp['config'], inp.get('ends_rt', False), inp.get('files', FILES)))
     if kind == 'aliasexpr' and 'shape' in inp:
